@@ -5,7 +5,8 @@
   raises the issue hands to FinalizeIssue.
 
   Transcribed after the fixes 79de057 (a nil config falls back to the global configuration), 3d47918 and
-  9a0fec3 (the per-parse context reaches nested schemas), dbf0311 (message functions).
+  9a0fec3 (the per-parse context reaches nested schemas), dbf0311 (message functions); the site tables are regenerated from
+  /repo on every run (last pinned at 455c79d: 7990727, 870d509, eac1fcf, 453f053, 67fecb7, 3f5a91c, 455c79d landed).
 -/
 namespace Gozod.Msg
 
